@@ -158,6 +158,13 @@ def run_case(case, ctx):
                     ('[-1:0:-1]', lambda: ch[-1:0:-1], None),
                 ]
                 ops.append(('.data', lambda: ch.data, n))       # lazily opened: only legal for zero-length channels (else it raises)
+
+                def after_index(sl):
+                    ch[0]
+                    return ch[sl]
+                ops += [('[0] then [0:2]', lambda: after_index(slice(0, 2)), None), ('[0] then [1:1]', lambda: after_index(slice(1, 1)), 0),
+                        ('[0] then [::2]', lambda: after_index(slice(None, None, 2)), None),
+                        ('[0] then read_data(0,2)', lambda: (ch[0], ch.read_data(0, 2))[1], None)]
                 for what, fn, want_len in ops:
                     try:
                         got = fn()
